@@ -68,6 +68,8 @@ def alphabet(cfg: dict) -> list:
         ["line", [9, 3, 1, 0, 2, "v"]],
         ["line", [1, 255, 4, 0, 0, "fw"]],
         ["send", [1, 3, 1, 0, 2, "w"]],  # the application sends a set (parked if node 1 is sleeping: C07)
+        ["metric"],  # the application flips Config.metric on the live gateway
+        ["line", [1, 255, 3, 0, 13, ""]],  # a reboot message RECEIVED from a node: nothing to react to
     ]
     if v is None:
         evs.append(["line", [0, 255, 3, 0, 2, cfg["reply"]]])
@@ -137,6 +139,12 @@ class Monitor:
             if node is not None:
                 node.reboot = True
             self.last_desc = {"reboot": ev[1], "applied": node is not None}
+            self.nontrivial = False
+            return viols
+        if ev[0] == "metric":
+            self.metric = not self.metric
+            gw.config.metric = self.metric
+            self.last_desc = {"metric": self.metric}
             self.nontrivial = False
             return viols
         if ev[0] == "send":
@@ -226,7 +234,7 @@ class Monitor:
         shape = tuple(
             sorted((n, tuple(sorted((c, tuple(sorted(d["values"].items()))) for c, d in nd["children"].items()))) for n, nd in self.model.nodes.items())
         )
-        return (canon_gateway(self.s.gateway), shape, self.v, tuple(self.parked))
+        return (canon_gateway(self.s.gateway), shape, self.v, tuple(self.parked), self.metric)
 
 
 def make(cfg):
